@@ -12,7 +12,6 @@ import (
 	"strings"
 
 	vmcommon "github.com/ElrondNetwork/elrond-vm-common"
-	"github.com/ElrondNetwork/elrond-vm-common/txDataBuilder"
 
 	"verifsim/spec"
 	"verifsim/world"
@@ -386,36 +385,36 @@ func (g *Gen) attached(dst []byte) [][]byte {
 
 // build encodes a transaction with the repository's own tx-data builder and checks the
 // builder/parser round trip on the spot (C12).
-func (g *Gen) build(fn string, args [][]byte) string {
-	b := txDataBuilder.NewBuilder()
-	b.Func(fn)
-	for _, a := range args {
+func (g *Gen) build(fn string, args [][]byte) (string, []string) {
+	ops := make([]string, len(args))
+	for i, a := range args {
 		minimal := len(a) == 0 || a[0] != 0
 		switch k := g.R.Intn(6); {
 		case k == 0 && minimal && len(a) <= 7:
-			b.Int64(new(big.Int).SetBytes(a).Int64())
+			ops[i] = "int64"
 		case k == 1 && minimal && len(a) <= 3:
-			b.Int(int(new(big.Int).SetBytes(a).Int64()))
+			ops[i] = "int"
 		case k == 2 && minimal:
-			b.BigInt(new(big.Int).SetBytes(a))
+			ops[i] = "bigint"
 		case k == 3 && len(a) == 1:
-			b.Byte(a[0])
+			ops[i] = "byte"
 		case k == 4:
-			b.Str(string(a))
+			ops[i] = "str"
 		default:
-			b.Bytes(a)
+			ops[i] = "bytes"
 		}
 	}
-	data := b.ToString()
-	g.W.CheckBuilt(fn, args, data)
-	if string(b.ToBytes()) != data {
-		g.W.CheckBuilt(fn, args, string(b.ToBytes()))
-	}
-	return data
+	// the data string a client would send is the documented encoding; Apply replays the builder
+	// calls and compares (so that a builder defect is found by an event that replays)
+	return spec.EncodeData(fn, args), ops
 }
 
 func (g *Gen) tx(snd, rcv []byte, fn string, args [][]byte, gas uint64, ct int) *world.TxJSON {
-	t := &world.TxJSON{Snd: hex.EncodeToString(snd), Rcv: hex.EncodeToString(rcv), Data: g.build(fn, args), Gas: gas, CallType: ct}
+	data, ops := g.build(fn, args)
+	t := &world.TxJSON{Snd: hex.EncodeToString(snd), Rcv: hex.EncodeToString(rcv), Data: data, Gas: gas, CallType: ct, Fn: fn, Ops: ops}
+	for _, a := range args {
+		t.Args = append(t.Args, hex.EncodeToString(a))
+	}
 	if g.R.Intn(60) == 0 {
 		t.Value = "5"
 	}
